@@ -311,7 +311,7 @@ def replay_encoder(inputs, label, cfg, shape, with_classes):
 def _cfg_pred(tier):
     out = []
     for cfg in CONFIGS:
-        shapes = [(0,), (1,), (2,), (3,), (2, 2)] if tier == "quick" else [(0,), (1,), (2,), (3,), (4,), (2, 2), (1, 3), (2, 1)]
+        shapes = [(0,), (0, 2), (1,), (2,), (3,), (2, 2)] if tier == "quick" else [(0,), (0, 2), (1,), (2,), (3,), (4,), (2, 2), (1, 3), (2, 1)]
         for sh in shapes:
             out.append(dict(cfg=cfg, shape=sh))
     return out
@@ -322,10 +322,10 @@ def _cfg_enc(tier):
     for cfg in CONFIGS:
         if cfg == "int_nan":
             continue  # int arrays cannot hold NaN: ExtLabelEncoder casts to float; covered by float_nan
-        shapes = [(0,), (2,), (3,), (2, 2)] if tier == "thorough" else [(0,), (2,), (3,)]
+        shapes = [(0,), (0, 2), (2,), (3,), (2, 2)] if tier == "thorough" else [(0,), (0, 2), (2,), (3,)]
         for sh in shapes:
             for wc in (False, True):
-                if sh == (0,) and not wc:
+                if sh in ((0,), (0, 2)) and not wc:
                     continue
                 out.append(dict(cfg=cfg, shape=sh, with_classes=wc))
     return out
